@@ -1604,7 +1604,186 @@ def w_stored_nested(failure, tier):
     return dict(found=False, note='stored nested values: %d documents return exactly the stored projection of their nested field' % n)
 
 
+def w_agg_layout(failure, tier):
+    """bucket aggregations against the corpus, in one segment and spread over several: every bucket's doc_count is the number
+    of matching documents carrying the key, one bucket per key, whatever the layout (terms with a nested terms sub-aggregation,
+    histogram)"""
+    docs = []
+    for i in range(24):
+        docs.append({"_id": "d%02d" % i, "body": "alpha" if i % 4 else "alpha beta", "tag": "t%d" % (i % 5), "kind": "k%d" % (i % 2), "n": i % 7})
+    add = {"keyword_fields": [{"name": "tag", "stored": True, "indexed": True, "fast": True}, {"name": "kind", "stored": True, "indexed": True, "fast": True}],
+           "numeric_fields": [{"name": "n", "i64": True, "fast": True, "stored": True}]}
+    aggs = {"tags": {"type": "terms", "field": "tag", "size": 50, "aggs": {"kinds": {"type": "terms", "field": "kind", "size": 50}}},
+            "hist": {"type": "histogram", "field": "n", "interval": 2.0}}
+    layouts = [[docs], [docs[:8], docs[8:16], docs[16:]], [docs[i:i + 5] for i in range(0, 24, 5)], [docs[i:i + 1] for i in range(24)][:12] + [docs[12:]]]
+    n = 0
+    for q in ({"type": "match_all"}, "beta"):
+        match = [d for d in docs if q != "beta" or "beta" in d["body"]]
+        want_tags = {}
+        want_sub = {}
+        for d in match:
+            want_tags[d["tag"]] = want_tags.get(d["tag"], 0) + 1
+            want_sub[(d["tag"], d["kind"])] = want_sub.get((d["tag"], d["kind"]), 0) + 1
+        want_hist = {}
+        for d in match:
+            k = float((d["n"] // 2) * 2)
+            want_hist[k] = want_hist.get(k, 0) + 1
+        for batches in layouts:
+            r = dict(REQ_BASE, query=q, limit=1, aggs=aggs)
+            out, err = drive_search({"schema": None, "schema_add": add, "batches": batches, "requests": [r]})
+            if out is None or 'ok' not in out[0]:
+                return dict(found=False, note='search driver failed: %s' % (err or str(out)[:300]))
+            ag = out[0]['ok'].get('aggregations') or {}
+            tb = (ag.get('tags') or {}).get('buckets', [])
+            got_tags = [(b['key'], b['doc_count']) for b in tb]
+            got_sub = {}
+            for b in tb:
+                for sb in ((b.get('aggregations') or b.get('aggs') or {}).get('kinds') or {}).get('buckets', []):
+                    got_sub[(b['key'], sb['key'])] = got_sub.get((b['key'], sb['key']), 0) + sb['doc_count']
+            got_hist = [(float(b['key']), b['doc_count']) for b in (ag.get('hist') or {}).get('buckets', []) if b['doc_count']]
+            n += 1
+            problems = []
+            if sorted(got_tags) != sorted(want_tags.items()):
+                problems.append('terms buckets %s, expected %s' % (sorted(got_tags), sorted(want_tags.items())))
+            if got_sub != want_sub and got_sub:
+                problems.append('nested terms buckets %s, expected %s' % (sorted(got_sub.items()), sorted(want_sub.items())))
+            if sorted(got_hist) != sorted(want_hist.items()):
+                problems.append('histogram buckets %s, expected %s' % (sorted(got_hist), sorted(want_hist.items())))
+            if problems:
+                return dict(found=True, cmd='%s search <<< hex(json)' % BIN,
+                            input='24 documents in %d segment(s), query %s, terms on tag with nested terms on kind, histogram on n (interval 2)' % (len(batches), _json.dumps(q)),
+                            observed='; '.join(problems), expected='the counts of the corpus, one bucket per key')
+    return dict(found=False, note='bucket aggregations: %d (query, segment layout) combinations report the counts of the corpus' % n)
+
+
+def w_pipeline_aggs(failure, tier):
+    """every pipeline aggregation kind, at the top level of a request and inside every bucket aggregation that takes
+    sub-aggregations: the search answers (a result or an error) - it never panics"""
+    docs = [{"_id": "d%d" % i, "body": "alpha", "tag": "t%d" % (i % 2), "n": i} for i in range(6)]
+    add = {"keyword_fields": [{"name": "tag", "stored": True, "indexed": True, "fast": True}],
+           "numeric_fields": [{"name": "n", "i64": True, "fast": True, "stored": True}]}
+    pipes = {
+        "bucket_sort": {"type": "bucket_sort", "sort": [{"_count": "desc"}]},
+        "avg_bucket": {"type": "avg_bucket", "buckets_path": "x>_count"},
+        "sum_bucket": {"type": "sum_bucket", "buckets_path": "x>_count"},
+        "derivative": {"type": "derivative", "buckets_path": "_count"},
+        "moving_avg": {"type": "moving_avg", "buckets_path": "_count", "window": 2},
+        "bucket_script": {"type": "bucket_script", "buckets_path": {"c": "_count"}, "script": "c * 2"},
+    }
+    parents = {
+        "terms": lambda sub: {"type": "terms", "field": "tag", "size": 5, "aggs": sub},
+        "histogram": lambda sub: {"type": "histogram", "field": "n", "interval": 2.0, "aggs": sub},
+        "range": lambda sub: {"type": "range", "field": "n", "ranges": [{"to": 3.0}, {"from": 3.0}], "aggs": sub},
+        "filter": lambda sub: {"type": "filter", "filter": {"KeywordEq": {"field": "tag", "value": "t0"}}, "aggs": sub},
+    }
+    reqs, meta = [], []
+    for name, p in pipes.items():
+        reqs.append(dict(REQ_BASE, query={"type": "match_all"}, limit=1, aggs={"p": p}))
+        meta.append('%s at the top level' % name)
+        for pn, mk in parents.items():
+            reqs.append(dict(REQ_BASE, query={"type": "match_all"}, limit=1, aggs={"x": mk({"p": p})}))
+            meta.append('%s inside %s' % (name, pn))
+    out, err = drive_search({"schema": None, "schema_add": add, "batches": [docs[:3], docs[3:]], "requests": reqs})
+    if out is None:
+        return dict(found=False, note='search driver failed: %s' % err)
+    for r, m, o in zip(reqs, meta, out):
+        if 'panic' in o:
+            return dict(found=True, cmd='%s search <<< hex(json)' % BIN, input='6 documents in 2 segments; match_all with aggregations %s (%s)' % (_json.dumps(r['aggs']), m),
+                        observed='the search panicked: %s' % o['panic'], expected='a result or an error')
+    return dict(found=False, note='pipeline aggregations: %d requests (six kinds x top level and four parents) are all answered without a panic' % len(reqs))
+
+
+def w_composite(failure, tier):
+    """composite aggregations against the corpus: the unpaged answer holds one bucket per (keyword value, histogram bucket)
+    combination with the number of documents in it - for i64 and for f64 fields alike - and a walk that sends each
+    after_key back returns every bucket exactly once, in the same order, after_key absent exactly on the last page"""
+    import math
+    docs = [{"_id": "d%02d" % i, "body": "alpha", "tag": "t%d" % (i % 3), "n": i - 5, "x": float(i) * 1.5 - 4.0} for i in range(14)]
+    add = {"keyword_fields": [{"name": "tag", "stored": True, "indexed": True, "fast": True}],
+           "numeric_fields": [{"name": "n", "i64": True, "fast": True, "stored": True}, {"name": "x", "i64": False, "fast": True, "stored": True}]}
+    n = 0
+    for (field, interval) in (("n", 3.0), ("x", 2.0)):
+        for srcs_kind in ("both", "hist"):
+            srcs = ([{"type": "terms", "name": "tag", "field": "tag"}] if srcs_kind == "both" else []) + [{"type": "histogram", "name": "h", "field": field, "interval": interval}]
+            want = {}
+            for d in docs:
+                hb = math.floor(d[field] / interval) * interval
+                k = ((d["tag"],) if srcs_kind == "both" else ()) + (hb,)
+                want[k] = want.get(k, 0) + 1
+            want_list = sorted(want.items())
+            keyof = lambda b: ((b['key']['tag'],) if srcs_kind == "both" else ()) + (float(b['key']['h']),)
+            for layout in ([docs], [docs[:5], docs[5:9], docs[9:]]):
+                for size in (100, 3, 1):
+                    got, after, pages = [], None, 0
+                    while True:
+                        agg = {"type": "composite", "size": size, "sources": srcs}
+                        if after is not None:
+                            agg["after"] = after
+                        r = dict(REQ_BASE, query={"type": "match_all"}, limit=1, aggs={"c": agg})
+                        out, err = drive_search({"schema": None, "schema_add": add, "batches": layout, "requests": [r]})
+                        if out is None or 'ok' not in out[0]:
+                            return dict(found=False, note='search driver failed: %s' % (err or str(out)[:300]))
+                        c = (out[0]['ok'].get('aggregations') or {}).get('c') or {}
+                        got.extend((keyof(b), b['doc_count']) for b in c.get('buckets', []))
+                        after = c.get('after_key')
+                        pages += 1
+                        if after is None or pages > 40:
+                            break
+                    n += 1
+                    if got != want_list:
+                        return dict(found=True, cmd='%s search <<< hex(json) (one request per page)' % BIN,
+                                    input='14 documents in %d segment(s); composite over %s, histogram on %s field %s interval %s, size %d, walking after_key' % (len(layout), 'tag and h' if srcs_kind == 'both' else 'h', 'the i64' if field == 'n' else 'the f64', field, interval, size),
+                                    observed='%d page(s): %s' % (pages, got), expected='%s' % want_list)
+    return dict(found=False, note='composite aggregations: %d (sources, field type, layout, page size) walks return every bucket of the corpus once, in order, with its count' % n)
+
+
+def w_terms_layout(failure, tier):
+    """terms aggregations with a bucket limit or a document-count threshold, in one segment and spread over several: the
+    limit and the threshold apply to the MERGED counts, so the answer is the same for every layout"""
+    skip = set((failure or {}).get('skip_cases') or [])
+    add = {"keyword_fields": [{"name": "tag", "stored": True, "indexed": True, "fast": True}]}
+    segs = [["a", "b", "b"], ["a", "c", "c"], ["a", "d", "d", "e"], ["e"]]
+    layout, k = [], 0
+    for seg in segs:
+        b = []
+        for t in seg:
+            b.append({"_id": "d%d" % k, "body": "alpha", "tag": t})
+            k += 1
+        layout.append(b)
+    alld = [d for b in layout for d in b]
+    cases = [("terms-size-per-segment", {"type": "terms", "field": "tag", "size": 1}),
+             ("terms-size-per-segment", {"type": "terms", "field": "tag", "size": 2}),
+             ("terms-min-doc-count-per-segment", {"type": "terms", "field": "tag", "size": 10, "min_doc_count": 2}),
+             ("terms-min-doc-count-per-segment", {"type": "terms", "field": "tag", "size": 10, "min_doc_count": 3})]
+    n = 0
+    for tag, agg in cases:
+        if tag in skip:
+            continue
+        res = []
+        for lay in ([alld], layout, [alld[:5], alld[5:]]):
+            r = dict(REQ_BASE, query={"type": "match_all"}, limit=1, aggs={"t": agg})
+            out, err = drive_search({"schema": None, "schema_add": add, "batches": lay, "requests": [r]})
+            if out is None or 'ok' not in out[0]:
+                return dict(found=False, note='search driver failed: %s' % (err or str(out)[:300]))
+            res.append((len(lay), [(b['key'], b['doc_count']) for b in out[0]['ok']['aggregations']['t']['buckets']]))
+            n += 1
+        if any(r[1] != res[0][1] for r in res):
+            return dict(found=True, cmd='%s search <<< hex(json)' % BIN, case=tag,
+                        input='11 documents with tags a x3 (one per segment), b x2, c x2, d x2, e x2 (split over two segments); %s' % _json.dumps(agg),
+                        observed='; '.join('%d segment(s): %s' % r for r in res[1:]), expected='%s (the single-segment answer: counts of the corpus, limit and threshold applied to them)' % res[0][1])
+    return dict(found=False, note='terms limits and thresholds: %d (aggregation, layout) combinations give the single-segment answer%s' % (n, '' if not skip else ' (cases of open known findings skipped: %s)' % sorted(skip)))
+
+
 GENERATORS = {
+    ('U49', 'terms_finish_cut'): w_terms_layout,
+    ('U48', 'composite_source_values'): w_composite,
+    ('U7', 'composite_keep_after'): w_composite,
+    ('U7', 'composite_page_cut'): w_composite,
+    ('U46', 'for_segment_nodes'): w_pipeline_aggs,
+    ('U46', 'from_request_pipeline_arm'): w_pipeline_aggs,
+    ('U47', 'is_pipeline_aggregation'): w_pipeline_aggs,
+    ('U47', 'split_pipeline_aggs'): w_pipeline_aggs,
+    ('U45', 'merge_bucket_lists'): w_agg_layout,
     ('U44', 'project_array'): w_stored_nested,
     ('U44', 'project_object'): w_stored_nested,
     ('U43', 'compact_docs'): w_compact,
